@@ -751,7 +751,7 @@ OPS = {
     "table-list-mismatch": op_table_list_mismatch, "loop-problems": op_loop_problems,
 }
 OP_NAMES = sorted(OPS)
-REQUIRED_LABELS = ["op:" + k for k in OP_NAMES] + ["soup:reached-row-loop", "soup:ok", "soup:rejected"]
+REQUIRED_LABELS = ["op:" + k for k in OP_NAMES] + ["soup:reached-row-loop", "soup:ok", "soup:rejected", "near-valid:ok", "near-valid:rejected"]
 
 # the small form on which every operator is also applied, for the shape cross-check
 SHALLOW = {
@@ -780,7 +780,85 @@ def _cases(draw):
         g = gen.G(draw, prof)
         form = gen.build_form(draw, prof, g=g)
         return {"form": form, "spec": {"op": g.pick(OP_NAMES), "seed": g.integer(0, 65535)}}
-    return {"soup": build_soup(draw)}
+    if which == 7:
+        return {"soup": build_soup(draw)}
+    return {"soup": build_near_valid(draw)}
+
+
+def build_near_valid(draw):
+    """a valid generated workbook with 1-4 cells (or whole rows) overwritten from the vocabulary: reaches the code behind the header
+    and type checks that pure soup rarely passes"""
+    prof = dict(gen.PROFILES["broad"], max_depth=3, p_blank_row=0.05, text="plain", text_ctl=False, p_params=0.5, p_entities=0.15,
+                settings="some", p_external=0.1, p_table_list=0.05, p_or_other=0.15)
+    g = gen.G(draw, prof)
+    form = gen.build_form(draw, prof, g=g)
+    wb = model.to_workbook_dict(form)
+    P = lambda x: g._u16() < x * 65536  # noqa: E731
+    for _ in range(g.integer(1, 4)):
+        sheets_ = [k for k in ("survey", "survey", "survey", "choices", "settings", "entities") if wb.get(k)]
+        if not sheets_:
+            break
+        sheet = g.pick(sheets_)
+        rows = wb[sheet]
+        if not rows:
+            continue
+        row = rows[g.integer(0, len(rows) - 1)]
+        if sheet == "survey":
+            what = g.integer(0, 9)
+            if what == 0 and rows:
+                rows.pop(g.integer(0, len(rows) - 1))          # drop a row (maybe a begin or an end)
+            elif what == 1:
+                rows.insert(g.integer(0, len(rows)), {"type": g.pick(S_TYPES), "name": g.pick(S_NAMES)})
+            elif what == 2:
+                row["type"] = g.pick(S_TYPES)
+            elif what == 3:
+                row["name"] = g.pick(S_NAMES)
+            elif what == 4:
+                row["parameters"] = g.pick(S_PARAMS)
+            elif what == 5:
+                row["appearance"] = g.pick(S_APPEAR)
+            elif what == 6:
+                row[g.pick(["relevant", "constraint", "calculation", "default", "choice_filter", "repeat_count", "required", "trigger"])] = g.pick(S_EXPR + S_REFS)
+            elif what == 7:
+                row[g.pick(S_COLS)] = g.pick(S_TEXT + S_REFS)
+            elif what == 8 and row:
+                row.pop(g.pick(sorted(row)), None)
+            else:
+                row[g.pick(["label", "hint", "label::en", "constraint_message", "guidance_hint", "image", "big-image"])] = g.pick(S_TEXT + S_REFS)
+            if "survey_header" in wb:
+                for k in row:
+                    wb["survey_header"][0].setdefault(k, None)
+        elif sheet == "choices":
+            what = g.integer(0, 4)
+            if what == 0:
+                row.pop("name", None)
+            elif what == 1:
+                row["name"] = g.pick(["a b", "other", "", "1", "c1"])
+            elif what == 2:
+                row["list_name"] = g.pick(["l1", "zz", "", "l 1"])
+            elif what == 3:
+                row[g.pick(S_CCOLS)] = g.pick(S_TEXT + S_REFS[:5])
+            elif row:
+                row.pop(g.pick(sorted(row)), None)
+            if "choices_header" in wb:
+                for k in row:
+                    wb["choices_header"][0].setdefault(k, None)
+        elif sheet == "settings":
+            k = g.pick(sorted(S_SETTINGS))
+            row[k] = g.pick(S_SETTINGS[k])
+            wb["settings_header"][0].setdefault(k, None)
+        else:
+            k = g.pick(["dataset", "label", "entity_id", "create_if", "update_if", "list_name"])
+            if P(0.3):
+                row.pop(k, None)
+            else:
+                row[k] = g.pick(S_EXPR + S_REFS + ["trees", "a.b", "__x"])
+                wb["entities_header"][0].setdefault(k, None)
+        for sh in ("survey", "choices", "settings", "entities"):
+            if sh in wb:
+                wb[sh] = [{k: v for k, v in r_.items() if v != ""} for r_ in wb[sh]]
+    args = {k: v for k, v in form.get("args", {}).items() if k in ("form_name", "default_language")}
+    return {"wb": wb, "args": args, "near_valid": True}
 
 
 def strategy(tier):
@@ -832,7 +910,7 @@ S_SETTINGS = {"form_title": S_TEXT, "form_id": ["f1", "", "a b", "é"], "id_stri
               "namespaces": ['a="http://a"', "a=b", "x", 'a="http://a" a="http://b"', ""], "attribute::a:b": ["1"], "attribute::x": ["<>"],
               "attribute::": ["v"], "instance_xmlns": ["http://q", ""], "omit_instanceID": ["yes", "no", "x"], "allow_choice_duplicates": ["yes", "no", "x"],
               "clean_text_values": ["yes", "no", "x"], "prefix": ["p"], "delimiter": ["d"], "sms_keyword": ["k"], "add_none_option": ["yes", "x"],
-              "flat": ["yes"], "instance_id": ["uid", "x"], "title": ["T"], "unknown_setting": ["1"]}
+              "instance_id": ["uid", "x"], "title": ["T"], "unknown_setting": ["1"]}
 
 
 def build_soup(draw):
@@ -1088,7 +1166,7 @@ def eval_soup(case) -> Outcome:
     wb, args = case["soup"]["wb"], case["soup"].get("args", {})
     status, res = common.run_workbook(wb, **args)
     out.checked("C17.no-crash")
-    out.label("soup:" + status)
+    out.label(("near-valid:" if case["soup"].get("near_valid") else "soup:") + status)
     typed = [r for r in wb.get("survey", []) if r.get("type")]
     if typed:
         out.label("soup:reached-row-loop")
